@@ -708,6 +708,10 @@ func (c *Client) receipts(ctx context.Context, url string, bm blockmap, start, l
 		}
 	}
 	for i := range resps {
+		if resps[i].Result == nil {
+			const tag = "eth_getBlockReceipts"
+			return fmt.Errorf("rpc=%s missing result", tag)
+		}
 		if len(resps[i].Result) == 0 {
 			slog.ErrorContext(ctx, "no rpc error but empty result")
 			continue
@@ -804,6 +808,8 @@ func (c *Client) logs(ctx context.Context, url string, filter *glf.Filter, bm bl
 		return fmt.Errorf("rpc=eth_getLogs %w", lresp.Error)
 	case hresp.Header == nil:
 		return fmt.Errorf("eth backend missing logs for block: %d", toBlock)
+	case lresp.Result == nil:
+		return fmt.Errorf("rpc=eth_getLogs missing result")
 	}
 	var logsByTx = map[key][]logResult{}
 	for i := range lresp.Result {
